@@ -35,7 +35,7 @@ RULE = ("bin: every one of the 35 dunders x operand kind {Stream, list, tuple, g
         "through every dunder; non-trivial = no exception and non-empty. ew: (name, pos) x layout x 16 kinds; "
         "non-trivial = iterable broadcast argument with >= 1 element. math: every wrapper x kind x call form; "
         "non-trivial = container input with >= 1 element. Distinct = distinct case hash.")
-EXHAUSTIVE = {"quick": True, "thorough": True}
+EXHAUSTIVE = {"quick": False, "thorough": False}   # bin / ew / math grids are enumerated completely, expr trees are sampled
 trusted_base = [
   "element-level meaning of Python's operators, getattr, call and abs is an oracle (Section variables opsem, "
   "unsem, attrsem, callsem): theorems hold for every such oracle; CPython's dispatch from `a + b` to "
@@ -300,6 +300,10 @@ def rand_tree(rng, depth, counter):
                                   for _ in range(nargs)],
             "kw": [["key%d" % j, ["v", fresh(), 0]] for j in range(rng.randrange(0, 2))],
             "e": rand_tree(rng, depth - 1, counter)}
+  if r < 0.36:
+    return {"n": "fun", "g": "g%d" % rng.randrange(3),
+            "extra": [["v", fresh(), 0] for _ in range(rng.randrange(0, 2))],
+            "e": rand_tree(rng, depth - 1, counter)}
   d = rng.choice(BIN_DUNDERS)
   func, rev, _ = DUNDERS[d]
   base = func.strip("_")
@@ -336,6 +340,9 @@ def build_tree(al, t):
     return getattr(e, t["name"]) if t["mode"] == "syntax" else al.Stream.__getattr__(e, t["name"])
   if n == "call":
     return e(*[S.to_sym(a) for a in t["args"]], **dict((k, S.to_sym(v)) for k, v in t["kw"]))
+  if n == "fun":
+    # an elementwise-decorated symbolic function applied to the Stream expression
+    return al.elementwise("x", 0)(S.symfunc(t["g"]))(e, *[S.to_sym(a) for a in t["extra"]])
   if n == "bin":
     return call_dunder(al, t["d"], t["mode"], e, [build_tree(al, t["o"])])
   if n == "bini":
@@ -359,6 +366,9 @@ def tree_lit(t):
   if n == "call":
     return "(CallE %s %s %s)" % (e, L.lst([S.term_lit(a) for a in t["args"]]),
                                  L.lst(["(%s, %s)" % (L.string(k), S.term_lit(v)) for k, v in t["kw"]]))
+  if n == "fun":
+    extra = "".join(" :: PScalar %s" % S.term_lit(a) for a in t["extra"])
+    return "(FunE (fun x => o_func [] %s (PScalar x%s :: []) []) %s)" % (L.string(t["g"]), extra, e)
   if n == "bin":
     return "(Bin %s %s %s)" % (L.string(t["d"]), e, tree_lit(t["o"]))
   if n == "bini":
@@ -379,6 +389,8 @@ def fixed_trees():
   yield {"n": "bin", "d": "__sub__", "mode": "syntax", "e": cyc("a", 2), "o": cyc("b", 3)}   # endless result
   yield {"n": "call", "args": [["c", 1]], "kw": [["k", ["v", "w", 0]]],
          "e": {"n": "attr", "name": "method", "mode": "syntax", "e": x("a", 3)}}        # stream.method(1, k=w)
+  yield {"n": "bins", "d": "__add__", "mode": "syntax", "c": ["c", 1],
+         "e": {"n": "fun", "g": "g0", "extra": [["v", "b", 0]], "e": cyc("a", 2)}}      # g0(stream, b) + 1
   # a chain of depth 4 ending with the shortest leaf deep inside
   t = x("a", 6)
   for j, d in enumerate(["__add__", "__rsub__", "__mul__", "__rpow__"]):
@@ -730,10 +742,23 @@ MATH_EXTRAS = {"log": [([], {}), ([2], {}), ([], {"base": 10.0})], "ln": [([], {
                "midi2str": [([], {}), ([False], {}), ([], {"sharp": False})]}
 
 
+_MN = ["acos", "acosh", "asin", "asinh", "atan", "atanh", "ceil", "cos", "cosh", "degrees", "erf", "erfc", "exp",
+       "expm1", "fabs", "floor", "frexp", "gamma", "isinf", "isnan", "lgamma", "modf", "radians", "sin", "sinh",
+       "sqrt", "tan", "tanh", "trunc"]
+STATIC_FUNCS = ([(n, "wrapper", (n, "x", 0, "math." + n, None)) for n in _MN] +
+                [(n, "wrapper", (n, "", 0, "def", None)) for n in
+                 ["log", "log1p", "factorial", "dB10", "dB20", "sign", "midi2freq", "str2midi", "freq2midi", "midi2str"]] +
+                [(n, "wrapper", (n, "", 0, "builtin", None)) for n in ["absolute", "cexp", "phase"]] +
+                [("ln", "alias", "log"), ("log10", "derived", None), ("log2", "derived", None),
+                 ("str2freq", "derived", None), ("freq2str", "derived", None)])
+
+
 def math_functions():
   """Every broadcasting function the regenerated tables know: wrappers, aliases, derived."""
   inf_ = info()
   res = []
+  if "math" not in inf_:       # the translator failed (reported as a broken tie): use the harness's own list
+    return list(STATIC_FUNCS)
   for m in ("math", "midi"):
     for w in inf_[m]["wrappers"]:
       res.append((w[0], "wrapper", w))
@@ -876,7 +901,7 @@ def extra(chk, tier, rng):
     for n in mod.__all__:
       if callable(getattr(mod, n)) and n not in known:
         chk.broken.append(("tie", "translator", "public function %s.%s is not in the regenerated tables" % (mod.__name__, n)))
-  for n in info()["math"]["math_names"]:
+  for n in info().get("math", {}).get("math_names", _MN):
     if getattr(getattr(al, n), "__wrapped__", None) is not getattr(math, n):
       chk.broken.append(("tie", "translator", "audiolazy.%s does not wrap math.%s" % (n, n)))
 
